@@ -26,6 +26,7 @@ import (
 	"fmt"
 	"net"
 	"os"
+	"reflect"
 	"runtime"
 	"sort"
 	"strings"
@@ -33,6 +34,7 @@ import (
 	"sync/atomic"
 	"testing"
 	"time"
+	"unsafe"
 
 	"github.com/markkurossi/mpc/p2p"
 	"pgregory.net/rapid"
@@ -439,6 +441,33 @@ func (m *mesh) exchange(snaps [][]peerSnap) (sig, msg string) {
 	return "", ""
 }
 
+// noTimeWait makes the TCP connections of a finished mesh close with a reset
+// instead of the FIN handshake.  Thousands of meshes per minute otherwise leave
+// >100 000 sockets in TIME_WAIT, and the kernel then has no free port left to
+// hand out for 127.0.0.1:0.  This is socket hygiene after the oracle has
+// finished; it reaches the unexported net.Conn under p2p.Conn by reflection.
+func noTimeWait(nw *p2p.Network) {
+	defer func() { recover() }()
+	for _, p := range nw.Peers {
+		if p == nil {
+			continue
+		}
+		for _, c := range p.Conns {
+			if c == nil {
+				continue
+			}
+			f := reflect.ValueOf(c).Elem().FieldByName("conn")
+			if !f.IsValid() {
+				continue
+			}
+			rw := reflect.NewAt(f.Type(), unsafe.Pointer(f.UnsafeAddr())).Elem().Interface()
+			if tc, ok := rw.(*net.TCPConn); ok {
+				tc.SetLinger(0)
+			}
+		}
+	}
+}
+
 func safeClose(nw *p2p.Network) {
 	defer func() { recover() }()
 	nw.Close()
@@ -452,6 +481,11 @@ func (m *mesh) shutdown(baseline int) {
 	nets := append([]*p2p.Network{}, m.nets...)
 	m.mu.Unlock()
 	var wg sync.WaitGroup
+	for _, nw := range nets {
+		if nw != nil {
+			noTimeWait(nw)
+		}
+	}
 	for _, nw := range nets {
 		if nw == nil {
 			continue
@@ -870,6 +904,16 @@ var (
 	hangCache = map[string]result{}
 )
 
+// infraReason strips addresses from an infrastructure error so that the
+// skipped-counter keys stay few.
+func infraReason(msg string) string {
+	parts := strings.Split(msg, ": ")
+	if len(parts) > 2 {
+		return parts[0] + ": " + parts[len(parts)-1]
+	}
+	return msg
+}
+
 func schedule(cs Case) string {
 	data, _ := json.Marshal(cs)
 	return string(data)
@@ -896,7 +940,7 @@ func run(cs Case) ev.Outcome {
 	}
 	switch r.kind {
 	case "infra":
-		return ev.Outcome{Skip: "infrastructure: " + strings.SplitN(r.msg, ":", 2)[0]}
+		return ev.Outcome{Skip: "infrastructure: " + infraReason(r.msg)}
 	case "timeout":
 		if !isCached && !col.IsKnown(r.sig) {
 			// A budget hit is a violation only if the same schedule hangs
